@@ -22,7 +22,7 @@ from collections.abc import Coroutine
 from Cryptodome.PublicKey import ECC, RSA
 from ...encoding import FormalName, BinaryStr, SignatureType, Name, parse_data, SignaturePtrs
 from ...app import NDNApp, Validator, ValidationFailure, InterestTimeout, InterestNack
-from .known_key_validator import verify_rsa, verify_hmac, verify_ecdsa
+from .known_key_validator import verify_rsa, verify_hmac, verify_ecdsa, verify_ed25519
 
 
 class PublicKeyStorage(abc.ABC):
@@ -77,10 +77,18 @@ class CascadeChecker:
         elif sig_ptrs.signature_info.signature_type == SignatureType.SHA256_WITH_ECDSA:
             try:
                 pub_key = ECC.import_key(bytes(pub_key_bits))
+                return verify_ecdsa(pub_key, sig_ptrs)
             except ValueError:
                 # The certificate does not carry a key of the type the signature claims
+                # (an Ed25519 key is imported as an ECC key, but cannot verify an ECDSA signature)
                 return False
-            return verify_ecdsa(pub_key, sig_ptrs)
+        elif sig_ptrs.signature_info.signature_type == SignatureType.ED25519:
+            try:
+                pub_key = ECC.import_key(bytes(pub_key_bits))
+                return verify_ed25519(pub_key, sig_ptrs)
+            except (ValueError, TypeError):
+                # The certificate does not carry an Ed25519 key
+                return False
         else:
             return False
 
